@@ -269,12 +269,26 @@ class ShimFuture:
         _CUR.point("cancel")
         return self.f.cancel()
 
+    # a wait with a timeout is a step that is always enabled: granted while the future is not done = the timeout
+    # expired (as for the queue operations below)
     def exception(self, timeout=None):
-        _CUR.point("exception", self.f.done)
+        import concurrent.futures
+        if timeout is None:
+            _CUR.point("exception", self.f.done)
+        else:
+            _CUR.point("exception")
+            if not self.f.done():
+                raise concurrent.futures.TimeoutError()
         return self.f.exception()
 
     def result(self, timeout=None):
-        _CUR.point("result", self.f.done)
+        import concurrent.futures
+        if timeout is None:
+            _CUR.point("result", self.f.done)
+        else:
+            _CUR.point("result")
+            if not self.f.done():
+                raise concurrent.futures.TimeoutError()
         return self.f.result()
 
     def add_done_callback(self, fn):
